@@ -376,16 +376,10 @@ def collisions(trace):
 
 
 def classify(case, trace, viol):
-    """narrow classifier of the recorded finding; everything else stays unclassified"""
-    out = []
-    for v in viol:
-        w = {'case': case, 'impl': v['impl'], 'expected': v['expected'], 'detail': v['detail'], 'kind': v['kind'], 'at': v['at']}
-        if v['kind'] == 'split-response' and v.get('inside'):
-            # F-C15b: the request ran strictly inside a registration that mutates the adapter registry in
-            # more than one step (after its first and before its last mutation)
-            w['finding'] = 'F-C15b'
-        out.append(w)
-    return out
+    """no recorded (known) finding is left for C15: F-C15a (cache key) and F-C15b (multiview conversion unregistered
+    before it registered) are both FIXED in /repo, so every deviation is reported as a violation"""
+    return [{'case': case, 'impl': v['impl'], 'expected': v['expected'], 'detail': v['detail'], 'kind': v['kind'], 'at': v['at']}
+            for v in viol]
 
 
 # ------------------------------------------------------------------------------------------------------
@@ -774,9 +768,9 @@ def run(ctx):
             out_viol.append(vs[0])
     dist['violations_by_class'] = dict((str(k), len(v)) for k, v in by.items())
     search_info = None
-    if (not ctx.build_ok or mism) and not any(not v.get('finding') for v in out_viol):
-        # the runner starts the failing-input search only when there is no violation at all; the recorded
-        # findings always show up here, so the search is run from here when an obligation is broken
+    if (not ctx.build_ok or mism) and out_viol and all(v.get('finding') for v in out_viol):
+        # (the runner starts the search itself when there is no violation at all; kept here so that the search
+        # also runs if a recorded finding is ever listed again)
         sres = search(ctx)
         out_viol += sres['violations']
         search_info = {k: v for k, v in sres.items() if k != 'violations'}
@@ -916,7 +910,7 @@ def _soak_round(ctx, seconds, threads, rnd):
     return {'violations': viol,
             'summary': {'seconds': round(time.time() - t0, 1), 'threads': threads, 'registrations_done': state['done'], 'requests_checked': nreq,
                         'requests_overlapping_a_registration': nover, 'miss_requests': nmiss,
-                        'deviations_outside_any_registration': len(hard), 'deviations_while_a_registration_was_in_flight(F-C15b window)': soft,
+                        'deviations_outside_any_registration': len(hard), 'deviations_while_a_registration_was_in_flight(inside its window)': soft,
                         'max_cache_len': maxlen, 'keys_that_can_hit': hit_keys,
                         'registrar_errors(zope.interface race, trusted base)': registrar_errors, 'requests_skipped_after_abort': skipped}}
 
